@@ -4,6 +4,7 @@
    for every expression tree of any size.  Declarations and statements are decided by the round-trip search. *)
 From Coq Require Import List NArith Bool Arith.
 From Verif Require Import Base.Res Gen.GenTokens Model.Lexer Model.ExprParser Proofs.ExprParserProofs Proofs.ExprInstance.
+From Verif Require Model.StParser Model.StInstance Model.StRender Proofs.StExprProofs Proofs.StStmtProofs Proofs.StInstanceProofs Proofs.StRenderProofs.
 Import ListNotations.
 Close Scope N_scope.
 Open Scope nat_scope.
@@ -28,3 +29,35 @@ Corollary C10_fixed_point : forall (e : rexpr) rest,
 Proof.
   intros e rest H1 H2. destruct (parse_render e rest H1 H2) as [f0 H]. exists f0. intros f Hf. rewrite (H f Hf). reflexivity.
 Qed.
+
+(* Statements: what the renderer model writes for a statement list (Model/StRender.v, compared with write_to_string token
+   for token on every run) is a well-formed spelling of that list, so the parser model reads it back as exactly the list it
+   was given -- assignments, calls with all parameter forms, IF / ELSIF / ELSE, FOR [BY], WHILE, REPEAT, EXIT, RETURN, nested
+   to any depth, expressions over all operators -- whatever the size.  [rstmt] excludes the recorded gap (a negative
+   integer constant is written '- 5') and empty loop / ELSIF bodies (written as an empty statement, which the spelled
+   lists do not cover); integer constants must print and read back ([int_ok], decided by evaluation for each value). *)
+Theorem C10_statements_render_is_spelling : forall l, l <> [] -> Forall StRenderProofs.rstmt l ->
+  StStmtProofs.wf_l token StInstance.tok_class StInstance.op_level (StRender.body_sp StRender.ss_of l) /\
+  StStmtProofs.erase_l token t_text StInstance.tok_num (StRender.body_sp StRender.ss_of l) = l.
+Proof. exact StRenderProofs.render_is_spelling. Qed.
+
+Theorem C10_statements_parse_render : forall name l, l <> [] -> Forall StRenderProofs.rstmt l ->
+  StParser.in_scope token StInstance.tok_class
+    (StRender.render_list l ++ StRender.nl1 ++ StRender.kwt KEndFunctionBlock :: StRender.nl1) = true ->
+  StInstance.parse_fb_tokens (StRenderProofs.render_fb name l) = StInstance.OParsed l.
+Proof. exact StRenderProofs.parse_render_fb. Qed.
+
+Theorem C10_statements_fixed_point : forall name l, l <> [] -> Forall StRenderProofs.rstmt l ->
+  StParser.in_scope token StInstance.tok_class
+    (StRender.render_list l ++ StRender.nl1 ++ StRender.kwt KEndFunctionBlock :: StRender.nl1) = true ->
+  match StInstance.parse_fb_tokens (StRenderProofs.render_fb name l) with
+  | StInstance.OParsed l' => StRenderProofs.render_fb name l' = StRenderProofs.render_fb name l
+  | _ => False
+  end.
+Proof. exact StRenderProofs.render_fixed_point. Qed.
+
+(* without the guard the statement is false: NOT -5 is written NOT - 5, which is rejected (the recorded finding) *)
+Theorem C10_negative_constant_refuted :
+  StInstance.parse_fb_tokens (StRenderProofs.render_fb [102%N] StRenderProofs.neg_witness)
+  <> StInstance.OParsed StRenderProofs.neg_witness.
+Proof. exact StRenderProofs.render_negative_constant_refuted. Qed.
